@@ -1012,6 +1012,11 @@ func (c *FCtx) evalBuiltin(st *State, name string, call *ast.CallExpr) []Val {
 			for k := int64(0); k < n.Num.Int64(); k++ {
 				nt = Store(nt, Add(dst.Off, Num(k)), Select(srcMem, Add(src.Off, Num(k))))
 			}
+		} else if oldT.Op == "constarr" && len(oldT.Args) == 1 && oldT.Args[0].IsNum() && oldT.Args[0].Num.Sign() == 0 && oldT.S == SArr(SInt) && srcMem.S == SArr(SInt) &&
+			dst.Off.IsNum() && dst.Off.Num.Sign() == 0 && sameTerm(dst.Len, src.Len) {
+			// a fresh all-zero buffer filled completely from a window of equal length: the new contents are exactly the
+			// canonical byte string sub(src, off, n) (zero outside [0,n)), so later specification terms coincide syntactically
+			nt = subBytes(srcMem, src.Off, dst.Len)
 		} else if false && oldT.S == SArr(SInt) && srcMem.S == SArr(SInt) {
 			// memmove semantics (the source window is read from the pre-state) as one term: later uses reduce by
 			// rewriting with the overlay/sub axioms of the prelude
